@@ -32,6 +32,7 @@ fn gen_cfg(tier: Tier) -> GenCfg {
     cfg.w_special_names = 0;
     cfg.w_missing_names = 1;
     cfg.w_len.huge = 0;
+    cfg.w_aligned_batch = 12;
     cfg.w_len.fileish = 8;
     cfg.w_len.blockish = 24;
     cfg.w_len.medium = 20;
